@@ -263,6 +263,37 @@ def hasAndOr : Cond α → Bool × Bool
   | .or l r => let (a1, _) := hasAndOr l; let (a2, _) := hasAndOr r; (a1 || a2, true)
   | .not c | .ex c | .fa c => hasAndOr c
 
+/-- a string literal body with a character / word the structural scanning looks for -/
+def strHasMeta (s : Str) : Bool :=
+  s.any (fun c => ['{', '}', '&', '|', '(', ')', ';', '=', ',', '+', '!'].contains c) || containsSub s " then ".toList
+
+partial def litMeta : ALit → Bool
+  | .str _ s => strHasMeta s
+  | .arr xs => xs.any litMeta
+  | _ => false
+
+def condAny (p : α → Bool) : Cond α → Bool
+  | .single a => p a
+  | .and l r | .or l r => condAny p l || condAny p r
+  | .not c | .ex c | .fa c => condAny p c
+
+def atomMeta : AAtom → Bool
+  | .cmp _ _ v | .call _ _ _ v | .mcount _ _ v => litMeta v
+  | .arith _ _ v => v.head? == some '"' && strHasMeta v
+  | _ => false
+
+def stmtMeta : AStmt → Bool
+  | .set _ v | .append _ v | .log v | .wfdata _ v => litMeta v
+  | .call _ as | .method _ _ as => as.any litMeta
+  | .activate g | .complete g | .schedule _ g => strHasMeta g
+  | _ => false
+
+def ruleMeta (r : ARule) : Bool :=
+  condAny atomMeta r.cond || r.stmts.any stmtMeta
+
+def headerMeta (r : ARule) : Bool :=
+  strHasMeta r.name || (r.agendaGroup.map strHasMeta).getD false || (r.activationGroup.map strHasMeta).getD false
+
 def tagsOf (c : Case) (rs : List ARule) : List String :=
   let n := rs.length
   let maxd := rs.foldl (fun m r => max m (condDepth r.cond)) 0
@@ -274,6 +305,8 @@ def tagsOf (c : Case) (rs : List ARule) : List String :=
   ++ (if rs.any (fun r => r.dateEffective.isSome || r.dateExpires.isSome) then ["dates"] else [])
   ++ (if mixed then ["and_or_mixed"] else [])
   ++ (if n ≥ 2 then ["multi_rule"] else [])
+  ++ (if rs.any ruleMeta then ["strlit_meta"] else [])
+  ++ (if rs.any headerMeta then ["header_meta"] else [])
   ++ (if n ≥ 1 && sz ≥ 3 then ["nontrivial"] else [])
 
 def firstDiff (a b : String) : Nat := Id.run do
